@@ -98,9 +98,11 @@ class PrintFaithful(SxContract):
 
     def body(self, inp):
         buf = io.StringIO()
+        del sx.FORMAT_LOG[:]
         with contextlib.redirect_stdout(buf):
             KA.print_kauri_tree(self.model, self.names)
         text = buf.getvalue()
+        specs = sorted(set(sx.FORMAT_LOG))
         pt = PrintedTree(text)
         tok = {format(t, ""): t for t in self.thr}
         if self.names is None:
@@ -109,14 +111,51 @@ class PrintFaithful(SxContract):
             n2f = {nm: i for i, nm in enumerate(self.names)}
         got = pt.apply(inp["x"][0], n2f, tok)
         want = int(self.tree.predict(inp["x"])[0])
-        return {"text": text, "read": got, "predict": want, "names_used": sorted({n[1] for n in _rules(pt.root)})}
+        return {"text": text, "read": got, "predict": want, "names_used": sorted({n[1] for n in _rules(pt.root)}), "specs": specs}
 
     def ensures(self, inp, out):
         yield "printed rules, read back and applied to a point, give the cluster predict assigns", prove.holds(
             out["read"] == out["predict"], f"read {out['read']} predict {out['predict']}\n{out['text']}")
+        lossy = [(sp, v) for sp in out["specs"] for v in AWKWARD if float(format(v, sp)) != v]
+        yield "thresholds are printed in a form that reads back to the same double (no lossy number format)", prove.holds(
+            not lossy, f"format spec {lossy[0][0]!r} prints {lossy[0][1]!r} as {format(lossy[0][1], lossy[0][0])}" if lossy else "")
         used = sorted(set(self.feats))
         want = sorted((self.names[f] if self.names is not None else f"X[:, {f}]") for f in used)
         yield "printed names are those of the features the tree uses", prove.holds(out["names_used"] == want, f"{out['names_used']} vs {want}")
+
+
+# doubles whose shortest exact decimal form needs 17 significant digits, tiny / huge magnitudes, negative zero-ish values
+AWKWARD = [0.1 + 0.2, 7 / 3, 1 / 3, 2 / 3, 1e-7 / 3, 123456.789e3 / 7, -0.1 - 0.2, 5e-324, 1.7976931348623157e308, 0.1, 1e16 + 2.0, 2.5e-5 / 3]
+
+
+def _native(self, env, inp):
+    """float replay on the real printer: thresholds / point from the witness, then the point moved onto every threshold and
+    awkward doubles used as thresholds; the text is read back with float() and compared with Tree.predict"""
+    x0 = sx.to_float(inp["x"], env)[0]
+    thr0 = [float(dag.fev(sx.lift(t), env)) for t in self.thr]
+    bad = None
+    trials = [thr0] + [[AWKWARD[(j + s_) % len(AWKWARD)] for j in range(len(thr0))] for s_ in range(3)]
+    for thr in trials:
+        tree = build_tree(self.seq, self.feats, thr)
+        model = fitted_model(tree)
+        buf = io.StringIO()
+        with contextlib.redirect_stdout(buf):
+            KA.print_kauri_tree(model, self.names)          # an exception here is a violation with this input (caught by the caller)
+        pt = PrintedTree(buf.getvalue())
+        n2f = {f"X[:, {i}]": i for i in range(self.d)} if self.names is None else {nm: i for i, nm in enumerate(self.names)}
+        points = [x0] + [np.where(np.arange(self.d) == self.feats[j], thr[j], x0) for j in range(len(thr))]
+        for x in points:
+            node = pt.root
+            while node[0] == "rule":
+                node = node[3] if x[n2f[node[1]]] <= float(node[2]) else node[4]
+            want = int(tree.predict(np.asarray(x, dtype=float)[None, :])[0])
+            if node[1] != want and bad is None:
+                bad = {"thresholds": thr, "x": [float(v) for v in x], "read back": node[1], "predict": want, "text": buf.getvalue()[:400]}
+    ok = bad is None
+    return {"*": (ok, bad or {"trials": len(trials)})}
+
+
+PrintFaithful.native = _native
 
 
 def _rules(n):
